@@ -97,6 +97,7 @@ class PipelineRun:
         self.clock = SimClock()
         self.clock.tick_on_read_ns = 0  # reads must not move time: lazily initialised code reads the clock a different number of times per process
         self.draw_cost_ns = case.get("draw_cost_ns", 200_000)
+        self.exec_cost_ns = case.get("exec_cost_ns", 2_000_000)
         self.draws = 0
         self.draw_hash = hashlib.sha256()
         self.draw_log = [] if case.get("log_draws") else None
@@ -175,7 +176,8 @@ class PipelineRun:
                 "filter_assertions_in_subprocess": False,  # would fork a real, unsimulated child
             },
             "type_inference": {"type_tracing": kn.get("type_tracing", 0.0)},
-            "local_search": {"local_search": kn.get("local_search", False)},
+            "local_search": {"local_search": kn.get("local_search", False),
+                             "local_search_time": kn.get("local_search_time_ms", 300)},
             "random": {"max_sequence_length": 6, "max_sequences_combined": 4},
         }
         cfg = pyn.make_config(c["module"], self.out_dir, seed=c["seed"],
@@ -247,6 +249,7 @@ class PipelineRun:
 
         def execute(self_ex, test_case):
             run.executions += 1
+            run.clock.ns += run.exec_cost_ns  # thread start, instrumentation overhead: an execution is never free
             code = test_case.to_code()
             run.hist.add("exec", run.executions, hashlib.sha256(code.encode()).hexdigest()[:12])
             if run.exec_log is not None:
